@@ -342,21 +342,29 @@ func (c *c21Run) do(op []any) {
 		stage := 0
 
 		c.nested = true
-		VerifC21BeforeUnwrap = func(string) {
-			stage = 1
-			c.emit([]any{"RL", slot, op[1]}, -1)
 
-			for _, o := range pre {
-				c.do(o.([]any))
-			}
-		}
-		VerifC21BeforeStore = func(string) {
+		// the operations injected at a yield point run with the yield points switched off
+		storeHook := func(string) {
+			VerifC21BeforeStore = nil
 			stage = 2
 			c.emit([]any{"RU", slot}, 1)
 
 			for _, o := range mid {
 				c.do(o.([]any))
 			}
+		}
+
+		VerifC21BeforeStore = storeHook
+		VerifC21BeforeUnwrap = func(string) {
+			VerifC21BeforeUnwrap, VerifC21BeforeStore = nil, nil
+			stage = 1
+			c.emit([]any{"RL", slot, op[1]}, -1)
+
+			for _, o := range pre {
+				c.do(o.([]any))
+			}
+
+			VerifC21BeforeStore = storeHook
 		}
 
 		s := (&Session{ID: 1}).Authenticate(c21Request(c.wire(op[1])))
